@@ -26,6 +26,17 @@ def terminates(stmts):
     return False
 
 
+def always_raises(stmts):
+    if not stmts:
+        return False
+    last = stmts[-1]
+    if isinstance(last, ast.Raise):
+        return True
+    if isinstance(last, ast.If):
+        return always_raises(last.body) and always_raises(last.orelse)
+    return False
+
+
 class LoopCtx(object):
     def __init__(self, var, lo, hi, seq):
         self.var = var
@@ -45,6 +56,20 @@ class StmtMixin(object):
         n = len(stmts)
         while i < n:
             st = stmts[i]
+            if isinstance(st, ast.If) and (always_raises(st.body) != always_raises(st.orelse)):
+                # a guard that raises: record the raise, then everything after is
+                # only reached when the guard is false (standing assumption, no Phi needed)
+                t = self.truth(self.eval(st.test, env))
+                a_r = always_raises(st.body)
+                if isinstance(t, bool):
+                    self.exec_block(st.body if t else st.orelse, env)
+                    i += 1
+                    continue
+                self.run_branch(st.body if a_r else st.orelse, env, t, a_r)
+                self.sticky_conds.append((t, not a_r))
+                self.exec_block(st.orelse if a_r else st.body, env)
+                i += 1
+                continue
             if isinstance(st, ast.If) and i + 1 < n:
                 a_term, b_term = terminates(st.body), terminates(st.orelse)
                 if a_term != b_term:
@@ -79,7 +104,7 @@ class StmtMixin(object):
 
     # ----------------------------------------------------------------- guards
     def guard_conds(self, birth):
-        return [(c, v) for (c, v, *_r) in self.path_conds[birth:]]
+        return list(self.path_conds[birth:])
 
     def guarded(self, new, old, birth):
         conds = self.guard_conds(birth)
@@ -96,7 +121,7 @@ class StmtMixin(object):
         """simplify Phi by the current path conditions"""
         while isinstance(v, Phi):
             hit = False
-            for c, val, *_r in self.path_conds:
+            for c, val in self.path_conds + self.sticky_conds:
                 if c.key() == v.cond.key():
                     v = v.a if val else v.b
                     hit = True
@@ -392,16 +417,14 @@ class StmtMixin(object):
             raise RaiseSignal(Opaque(("either", a[1].key(), b[1].key())), st)
         if ka == "raise":
             # the remainder is only reached when not t: make that a standing assumption
-            self.path_conds.append((t, False, "sticky"))
-            self.sticky += 1
+            self.sticky_conds.append((t, False))
             if kb == "return":
                 raise ReturnSignal(b[1])
             if kb == "continue":
                 raise ContinueSignal()
             return
         if kb == "raise":
-            self.path_conds.append((t, True, "sticky"))
-            self.sticky += 1
+            self.sticky_conds.append((t, True))
             if ka == "return":
                 raise ReturnSignal(a[1])
             if ka == "continue":
